@@ -577,6 +577,24 @@ Proof.
     exists ((k1, v1) :: ps2). cbn [kid_pairs]. rewrite P2. reflexivity.
 Qed.
 
+(* d[k] through a dict wrapper not bound immutable: the stored VALUE (the entry the caller put there), never the
+   wrapper's body; a missing key raises KeyError *)
+Theorem src_dict_getitem tb ia df rec fimm ib nm l h o ps kc :
+  simm fimm ib = false -> get h l = Some o -> o_kind o = KWDict -> kid_pairs (o_kids o) = Some ps ->
+  Src_DictStruct_getitem (env_of (fun l => Some (tb l)) ia df) rec (wview (AV (CRef l)) fimm ib nm) (AV kc) h =
+  match dict_find ps kc with Some v => Ok (h, AV v) | None => Raise KeyError end.
+Proof.
+  intros S G K P. unfold Src_DictStruct_getitem. unfold mbind at 1.
+  assert (A : (t1 <~ mret (AV kc) ;; a_super_getitem (wview (AV (CRef l)) fimm ib nm) t1) h =
+              match dict_find ps kc with Some v => Ok (h, AV v) | None => Raise KeyError end).
+  { unfold mbind at 1. unfold mret at 1. unfold a_super_getitem, mbind. rewrite a_body_wview.
+    unfold kind_of, a_kids. repeat (first [rewrite G | rewrite K | rewrite P | progress cbn beta iota]).
+    destruct (dict_find ps kc); reflexivity. }
+  rewrite A. destruct (dict_find ps kc) as [v|]; [| reflexivity].
+  unfold mbind at 1. unfold mret at 1.
+  exact (src_defcopy_child_plain tb ia df rec fimm ib nm (AV (CRef l)) v h S).
+Qed.
+
 Theorem src_dict_deepcopy tb ia df rec fimm ib nm l h o ps m ib' :
   simm fimm ib = false -> simm fimm ib' = false -> get h l = Some o -> o_kind o = KWDict ->
   kid_pairs (o_kids o) = Some ps -> rebind m ib = inst_of ib' ->
@@ -734,6 +752,7 @@ Print Assumptions src_deque_copy.
 Print Assumptions src_deque_deepcopy.
 Print Assumptions src_dict_copy.
 Print Assumptions src_dict_deepcopy.
+Print Assumptions src_dict_getitem.
 Print Assumptions src_list_getstate.
 Print Assumptions src_list_setstate.
 Print Assumptions src_wrapper_deepcopy_is_dc.
